@@ -215,7 +215,7 @@ def replay_file(doc):
         return stepflags.replay_flags(rp, m)
     if rp.get("kind") == "plist":
         from checks import plist
-        return plist.replay_plist(rp)
+        return plist.replay_plist(rp, m)
     if rp.get("kind") != "group_step" or not m:
         return False, "no native replayer for this obligation family"
     hv = {k: m.get(v) for k, v in _H.items()}
